@@ -979,7 +979,7 @@ func TestVerif_C09(t *testing.T) {
 	rng := verifRand()
 	var sb, idx strings.Builder
 	sb.WriteString(coqCaseHeader)
-	sb.WriteString("From KM Require Import Base.Cases Model.Seal.\nOpen Scope N_scope.\n")
+	sb.WriteString("From KM Require Import Base.Cases Model.Seal Model.SealLife.\nOpen Scope N_scope.\n")
 	for i, v := range c09Variants {
 		sb.WriteString(v.coq(fmt.Sprintf("cfg%d", i)))
 	}
@@ -1261,7 +1261,15 @@ func TestVerif_C09(t *testing.T) {
 	overCoq, overIdx := c09Listeners(t, res)
 	sb.WriteString(overCoq)
 	idx.WriteString(overIdx)
-	sb.WriteString("Definition c09_ncases := Eval vm_compute in (length seq_cases + length route_cases + length pub_cases + length auto_cases + length over_cases)%nat.\nPrint c09_ncases.\n")
+	// ------------------------------------------------------------ (h) the readiness probe in every form a prober asks it (c09ready.go)
+	readyCoq, readyIdx := c09ReadyProbes(t, res)
+	sb.WriteString(readyCoq)
+	idx.WriteString(readyIdx)
+	// ------------------------------------------------------------ (i) life cycles across restarts on one data directory (c09life.go)
+	lifeCoq, lifeIdx := c09Lives(t, res)
+	sb.WriteString(lifeCoq)
+	idx.WriteString(lifeIdx)
+	sb.WriteString("Definition c09_ncases := Eval vm_compute in (length seq_cases + length route_cases + length pub_cases + length auto_cases + length over_cases + length ready_cases + length life_cases)%nat.\nPrint c09_ncases.\n")
 	if err := ioutil.WriteFile(filepath.Join(verifOut(), "CasesC09.v"), []byte(sb.String()), 0644); err != nil {
 		t.Fatal(err)
 	}
